@@ -136,6 +136,7 @@ class PDA:
             The state to add
         """
         state = self._pda_obj_creator.to_state(state)
+        self._states.add(state)
         self._final_states.add(state)
 
     @property
